@@ -1,5 +1,6 @@
 import Fabio.Props.C03
 import Fabio.Props.C13
+import Fabio.Model.C13Table
 /-!
 C13 ∘ C03 — the redirect a request receives, stated on C03's model of `Table.Lookup`.
 
@@ -15,40 +16,9 @@ option handling; `Model.C13.redirectCode` is the code part).
 namespace Fabio.Props.C13Compose
 open Fabio Fabio.Model
 
-/-- one request, as the two models see it -/
-structure CReq where
-  /-- host, TLS, decoded path: what host and path matching read (C03) -/
-  r03 : C03.Req
-  /-- `req.URL` with `Host` set to `req.Host`: what `BuildRedirectURL` reads (C13) -/
-  url : C13.URL
-  /-- the `X-Forwarded-Proto` header (empty = absent) -/
-  xfp : C13.Str
-
-def scheme (q : CReq) : C13.Str := C13.reqScheme q.xfp q.r03.tls
-
-/-- C13's self-redirect predicate for a table target: it is a redirect target and the URL built for this
-request points back at the request's own scheme, host and path. -/
-def skipFor (view : Route.Target → C13.RTarget) (q : CReq) (tg : Route.Target) : Bool :=
-  decide ((view tg).code ≠ 0) && C13.selfRedirect (C13.buildRedirectURL (view tg) q.url) (scheme q) q.url
-
-/-- C03's configuration with the skip of this request -/
-def cfgFor (cfg : C03.Cfg) (view : Route.Target → C13.RTarget) (q : CReq) : C03.Cfg :=
-  { cfg with skip := skipFor view q }
-
-/-- `Table.Lookup` for this request: C03's model with C13's skip -/
-def Lookup (cfg : C03.Cfg) (view : Route.Target → C13.RTarget) (t : Route.Table) (q : CReq) :
-    Option (Route.Str × Route.Route × Route.Target) :=
-  C03.Lookup (cfgFor cfg view q) t q.r03
-
-/-- what the client of a redirect route sees (status, `Location`); `none`: not answered by a redirect -/
-def answer (cfg : C03.Cfg) (view : Route.Target → C13.RTarget) (t : Route.Table) (q : CReq) : Option (Int × C13.Str) :=
-  match Lookup cfg view t q with
-  | some (_, _, tg) => if (view tg).code ≠ 0 then some ((view tg).code, C13.location (view tg) q.url) else none
-  | none => none
-
-/-- the candidate list C13's loop runs over: per host of C03's host list, what `t.lookup` yields -/
-def cands (cfg : C03.Cfg) (view : Route.Target → C13.RTarget) (t : Route.Table) (q : CReq) : List (Option C13.RTarget) :=
-  (C03.hostList cfg t q.r03).map (fun h => (C03.lookup cfg.pathMatch cfg.pick t h q.r03.path).map (fun p => view p.2))
+/-! The definitions (`CReq`, `scheme`, `skipFor`, `cfgFor`, `Lookup`, `answer`, `cands`) live in
+`Model/C13Table.lean` since round 4: the driver of `c13.http` executes them on the dumped table of every case. -/
+export Fabio.Model.C13Table (CReq scheme skipFor cfgFor Lookup answer cands)
 
 /-! ### the two loops are one loop -/
 
